@@ -2,8 +2,10 @@
    (harness/cmd/c10).  Three kinds of cases, selected by the first element:
      0  decoder      [0; frames?; wire; cuts; obs]
      1  FrameStream  [1; reader_tid; reader_weof; writer_tids; ops; caps; dcap; wire; wres; reads; term; final; broken]
-     2  tunnel ids   [2; string; wire id; TunnelIDToString(wire id)] *)
-From TX Require Import Base.Val Model.CrossFrame Gen.C10.
+     2  tunnel ids   [2; string; wire id; TunnelIDToString(wire id)]
+     3  forwarder    [3; upload chunks; download chunks; schedule; up_mid; down_mid; up_final; down_final]
+                     (gated replay of a schedule on the real runBidirectionalForward, Model/Forward.v) *)
+From TX Require Import Base.Val Model.CrossFrame Model.Forward Gen.C10.
 Open Scope N_scope.
 
 Definition M := MaxFrameSize.
@@ -108,9 +110,21 @@ Definition check_stream (v : tval) : bool :=
 Definition check_tid (v : tval) : bool :=
   bytes_eqb (wire_id (vb (vnth 1 v))) (vb (vnth 2 v)) && bytes_eqb (id_to_string (vb (vnth 2 v))) (vb (vnth 3 v)).
 
+(* ---- runBidirectionalForward under a schedule ---- *)
+Definition fwd_mid (v : tval) : fsh * list flo :=
+  frun false (finit [] [] (map vb (vl (vnth 1 v))) (map vb (vl (vnth 2 v)))) (map vnat (vl (vnth 3 v))).
+Definition fwd_final (v : tval) : fsh * list flo :=
+  let n := (2 * (length (vl (vnth 1 v)) + length (vl (vnth 2 v))) + 2)%nat in
+  frun false (fwd_mid v) (flat_map (fun _ => [0; 1]%nat) (seq 0 n)).
+Definition check_fwd (v : tval) : bool :=
+  bytes_eqb (sink_up (fwd_mid v)) (vb (vnth 4 v)) && bytes_eqb (sink_down (fwd_mid v)) (vb (vnth 5 v))
+  && bytes_eqb (sink_up (fwd_final v)) (vb (vnth 6 v)) && bytes_eqb (sink_down (fwd_final v)) (vb (vnth 7 v))
+  && match phase_of 0 (fwd_final v), phase_of 1 (fwd_final v) with PDone, PDone => true | _, _ => false end.
+
 Definition check (v : tval) : bool :=
   let k := vn (vnth 0 v) in
-  if k =? 0 then check_dec v else if k =? 1 then check_stream v else if k =? 2 then check_tid v else false.
+  if k =? 0 then check_dec v else if k =? 1 then check_stream v else if k =? 2 then check_tid v
+  else if k =? 3 then check_fwd v else false.
 
 Definition enc_dec (m : dres * N) : tval :=
   match fst m with
@@ -124,5 +138,6 @@ Definition predict (v : tval) : tval :=
     let m := model_stream v in
     VL [VB (so_wire m); VL (map (fun a => VL [VN (fst a); VN (snd a)]) (so_wres m)); VL (map VB (so_reads m));
         VN (so_term m); VN (so_final m); vN_of_bool (so_broken m)]
+  else if k =? 3 then VL [VB (sink_up (fwd_mid v)); VB (sink_down (fwd_mid v)); VB (sink_up (fwd_final v)); VB (sink_down (fwd_final v))]
   else VL [VB (wire_id (vb (vnth 1 v))); VB (id_to_string (vb (vnth 2 v)))].
 Close Scope N_scope.
